@@ -421,6 +421,20 @@ def real_collision(prefix="leaf"):
             again = mk().get_relation_name(first)
             if again == first or again in names:
                 return True, f"a request with the earlier name {first!r} as prefix returned {again!r} again"
+        # an engine duplicated together with its state (copy.deepcopy, a pickle round trip): the copies are different engines
+        import copy as _copy
+        import pickle as _pickle
+        for dup in (_copy.deepcopy, lambda e: _pickle.loads(_pickle.dumps(e))):
+            for mk in (lambda: iteration.Engine(name="e5"), lambda: sql.Engine(name="e6")):
+                orig = mk()
+                orig.get_relation_name(pfx)
+                try:
+                    twin = dup(orig)
+                except Exception:  # noqa: BLE001 - an engine that cannot be copied cannot collide this way
+                    continue
+                got2 = [orig.get_relation_name(pfx), twin.get_relation_name(pfx), orig.get_relation_name(pfx), twin.get_relation_name(pfx)]
+                if len(set(got2)) != len(got2):
+                    return True, f"an engine and its copy (prefix {pfx!r}) returned {got2}"
         tried.append((pfx[:8], names[:2], [a, b]))
     # the encoding admits a collision through engine state that the code reads back: let real threads race for it (only reached
     # when the solver found the VC satisfiable, i.e. never on code whose names are distinct by construction)
